@@ -381,7 +381,7 @@ check:
 		if value == nil {
 			return e.SetNext(name)
 		}
-		n, err := ParseInt(value.Name)
+		n, err := parseIntegerValue(value.Name)
 		if err != nil {
 			return err
 		}
